@@ -312,6 +312,15 @@ def lift_loop():
     assigned = {t.id for s in ast.walk(fdef) if isinstance(s, (ast.Assign, ast.AugAssign)) for t in (s.targets if isinstance(s, ast.Assign) else [s.target]) if isinstance(t, ast.Name)}
     if assigned != set(state):
         raise core.VkError("_findRcrit: local variables changed: %s" % sorted(assigned))
+    names = [x.arg for x in fdef.args.args]
+    if names[:3] != ["self", "RcritSphere", "Rmax"] or fdef.args.vararg or fdef.args.kwarg or fdef.args.kwonlyargs:
+        raise core.VkError("_findRcrit: unexpected signature %s" % names)
+    # further parameters (all must have defaults) are kept, with their defaults, behind the loop state
+    extra = names[3:]
+    defaults = fdef.args.defaults[len(fdef.args.defaults) - len(extra):] if extra else []
+    if len(defaults) != len(extra):
+        raise core.VkError("_findRcrit: extra parameter without default %s" % names)
+    tail_params = "".join(", %s=%s" % (nm, ast.unparse(df)) for nm, df in zip(extra, defaults))
     args = "self, RcritSphere, Rmax"
     st = ", ".join(state)
 
@@ -327,11 +336,11 @@ def lift_loop():
         return f
     import copy
     pre = [copy.deepcopy(s) for s in fdef.body[:li] if not (isinstance(s, ast.Expr) and isinstance(s.value, ast.Constant))]
-    f_init = mkfun("vk_init", args, pre, True)
-    f_test = mkfun("vk_test", args + ", " + st, [ast.Return(value=copy.deepcopy(loop.test))], False)
+    f_init = mkfun("vk_init", args + tail_params, pre, True)
+    f_test = mkfun("vk_test", args + ", " + st + tail_params, [ast.Return(value=copy.deepcopy(loop.test))], False)
     f_test.body = [ast.Return(value=copy.deepcopy(loop.test))]
-    f_body = mkfun("vk_body", args + ", " + st, [copy.deepcopy(s) for s in loop.body], True)
-    f_tail = mkfun("vk_tail", args + ", " + st, [copy.deepcopy(s) for s in fdef.body[li + 1:]], False)
+    f_body = mkfun("vk_body", args + ", " + st + tail_params, [copy.deepcopy(s) for s in loop.body], True)
+    f_tail = mkfun("vk_tail", args + ", " + st + tail_params, [copy.deepcopy(s) for s in fdef.body[li + 1:]], False)
     m = ast.Module(body=[f_init, f_test, f_body, f_tail], type_ignores=[])
     ast.fix_missing_locations(m)
     ns = dict(SFmod.__dict__)
